@@ -438,6 +438,30 @@ def rule_r6(chk, facts, P):
             chk.ob('C11-R6', 'as.c:%s:%s@%d' % (fn, callee_name(c), n), ok, f.loc(ln), why if ok else
                    '%s(&%s->Params, ..) changes the length of the argument list but %s->ParCnt is not adjusted: after SHIFT '
                    'the last parameters are no longer substituted and ARGCOUNT is wrong' % (callee_name(c), show(base), show(base)))
+    # SHIFT works on the argument list of the innermost *macro* expansion, not on that of an IRP/REPT/WHILE body around it
+    sh = facts.func('as.c', 'ExpandSHIFT')
+    for b, i, ln, c in sh.calls('GetAndCutStringList'):
+        a0 = nocast(c[2][0])
+        if not (a0[0] == 'u' and a0[1] == '&' and strip(a0[2])[0] == 'm' and strip(a0[2])[2].endswith('.Params')):
+            continue
+        tagv = strip(strip(a0[2])[1])
+
+        def is_macro_tag(a, tagv=tagv):
+            return a[0] == 'cmp' and a[1] == '==' and (
+                (a[2][0] == 'm' and a[2][2].endswith('.Processor') and strip(a[2][1]) == tagv and nocast(a[3]) == ('fn', 'MACRO_Processor')) or
+                (a[3][0] == 'm' and a[3][2].endswith('.Processor') and strip(a[3][1]) == tagv and nocast(a[2]) == ('fn', 'MACRO_Processor')))
+
+        def tag_null(a, tagv=tagv):
+            return a[0] == 'z' and a[1] == tagv
+        nonnull = sh.guarded(b, i, nz_guard(tagv))[0]
+        sel = sh.guarded(b, i, lambda l: edge_has_atom(l, is_macro_tag) or edge_has_atom(l, tag_null))[0]
+        n += 1
+        ok = nonnull and sel
+        chk.ob('C11-R6', 'as.c:ExpandSHIFT:acts-on-macro-tag', ok, sh.loc(ln),
+               'the tag was selected by Processor == MACRO_Processor' if ok else
+               'SHIFT cuts the argument list of a tag that was not selected by "Processor == MACRO_Processor": inside a '
+               'REPT/IRP body within a macro it works on the loop\'s tag (IsMacro is set for those too), so the macro\'s '
+               'parameters, ARGCOUNT and ALLARGS stay unshifted')
     mp = facts.func('as.c', 'MACRO_Processor')
     okp = False
     for (h, s0) in mp.loops():
